@@ -388,7 +388,7 @@ impl SvgElement {
 
         let mut p = Position::from(self as &SvgElement);
         if self.name == "use" {
-            if let Some(href) = self.get_attr("href") {
+            if let Some(href) = self.href_attr() {
                 let elref = href.parse()?;
                 let el = ctx
                     .get_element(&elref)
@@ -697,6 +697,18 @@ impl SvgElement {
         }
     }
 
+    /// The reference a `use` / `reuse` element points at: `href`, or - for `use` -
+    /// the SVG 1.1 spelling `xlink:href`.
+    fn href_attr(&self) -> Option<String> {
+        self.get_attr("href").or_else(|| {
+            if self.name == "use" {
+                self.get_attr("xlink:href")
+            } else {
+                None
+            }
+        })
+    }
+
     pub fn get_target_element(&self, ctx: &impl ElementMap) -> Result<SvgElement> {
         // TODO: this uses OrderIndex to uniquely identify elements, but that's a bit
         // of a hack. In particular using `id` or `href` is insufficient, as doesn't
@@ -711,7 +723,7 @@ impl SvgElement {
 
         while element.name == "use" || element.name == "reuse" {
             let href = element
-                .get_attr("href")
+                .href_attr()
                 .ok_or_else(|| SvgdxError::MissingAttribute("href".to_owned()))?;
             let elref = href.parse()?;
             if let Some(el) = ctx.get_element(&elref) {
